@@ -1,5 +1,6 @@
 import GqlVerif.Props.C14
 import GqlVerif.Proofs.ComposedC14
+import GqlVerif.Proofs.SerdeFuelWitness
 open GqlVerif.C14
 #print axioms dep_table
 #print axioms never_omitted_unless_denied
@@ -21,3 +22,9 @@ open GqlVerif.C14
 #print axioms GqlVerif.Composed.flattened_member_key_matters
 #print axioms GqlVerif.Composed.tag_key_matters
 #print axioms GqlVerif.Composed.oneOf_key_matters
+-- the top-level Serde.de form, unconditional in the fuel (Proofs/SerdeFuel.lean)
+#print axioms GqlVerif.SerdeFuel.denied_key_ignored_de
+#print axioms GqlVerif.SerdeFuel.denied_key_ignored_de_ty
+#print axioms GqlVerif.SerdeFuel.denied_key_ignored_de_of_nf
+#print axioms GqlVerif.SerdeFuel.denied_key_not_ignored_without_rank
+#print axioms GqlVerif.SerdeFuel.denyEnv_denied_key_ignored
